@@ -815,7 +815,7 @@ def render(e):
     k = e[0]
     if k == 'a': return e[1]
     if k == 'lit': return e[1]
-    parts = tuple(render(c) if c[0] in ('a', 'lit') else '(%s)' % render(c) for c in e[1:])
+    parts = tuple(render(c) if c[0] == 'a' else '(%s)' % render(c) for c in e[1:])
     if k in UNARY: return UNARY[k] % parts
     if k in BINARY: return BINARY[k] % parts
     if k in TERNARY:
@@ -992,7 +992,7 @@ _render_base = render
 def render(e):
     k = e[0]
     if k in EXTRA:
-        parts = tuple(render(c) if c[0] in ('a', 'lit') else '(%s)' % render(c) for c in e[1:])
+        parts = tuple(render(c) if c[0] == 'a' else '(%s)' % render(c) for c in e[1:])
         return EXTRA[k] % parts
     return _render_base(e)
 
@@ -1216,6 +1216,7 @@ WITNESSES = [   # the four known findings (known_findings.json): replayed on eve
     ('cond', ('not', ('and', ('a', 'a'), ('lit', '0')))),
     ('cond', ('ife', ('a', 'a'), ('lit', '1'), ('lit', '1'))),
     ('cond', ('and', ('a', 'b'), ('or', ('a', 'a'), ('lit', 'True')))),
+    ('cond', ('and', ('a', 'b'), ('ife', ('a', 'c'), ('lit', '1'), ('a', 'd')))),
 ]
 CORPUS = os.path.join(os.path.dirname(os.path.dirname(os.path.abspath(__file__))), 'corpus', 'C03')
 
@@ -1390,6 +1391,8 @@ def run(ctx):
         for n in range(2, lit_k + 1):
             for e in enumerate_exprs_lit(n, 3):
                 for kind in ('cond', 'elt', 'lam'): programs.append(prog_of(kind, e)); n_lit += 1
+                # ... and as the second of two conditions (an earlier clause on the decompiler's stack)
+                programs.append({'elt': ('a', 'x'), 'clauses': [{'target': 'x', 'iter': None, 'conds': [('a', 'z'), e]}]}); n_lit += 1
     finally:
         for d, sv in zip((UNARY, BINARY, TERNARY), saved): d.clear(); d.update(sv)
         shapes.__defaults__[0].clear()
